@@ -24,13 +24,17 @@ ASSUMPTIONS = [
     "over which the skeleton theorems quantify; tied by replaying the recorded stream of every explored run",
     "C19: objective values used by the harness are integers or dyadic rationals, so the solvers' float "
     "comparisons of objective values are exact and coincide with the skeletons' comparisons in Rat",
-    "C19: powell/bfgs/lbfgs have no skeleton; only `objective == f(solution)` and reproducibility are checked, directly",
+    "C19: powell/bfgs/lbfgs have no skeleton; only `objective == f(solution)` (the user's f re-called on the returned "
+    "point, bit-exact, non-finite values compared by repr) and reproducibility are checked, directly; their call "
+    "pattern (line-search trials) is deliberately not an R_trace observable, `evaluations` is not checked for them",
     "C19: start points supplied beyond the population size (documented truncation) and the unclipped versions of "
     "out-of-bounds start points are not counted as starting points",
 ]
 RULE = ("per solver: seeded random objective (hash / needle-in-haystack / plateau / cliff / constant / step / grid "
         "families, integer or dyadic valued), callbacks, start points, bounds, limits, acceptance rules, "
-        "minimize/maximize, optional on_progress stop; each case = recorded run + identical rerun + mirrored run; "
+        "minimize/maximize, optional on_progress stop; powell/bfgs/lbfgs additionally on objectives with jumps and "
+        "kinks (hard-penalty quadratic, L1, minimax, hinge, stairs+slope), analytic and finite-difference gradients, "
+        "start points on both sides of the discontinuity, max_iter swept over 0..40 and larger; each case = recorded run + identical rerun + mirrored run; "
         "non-trivial = the best was found after the start points and a strictly worse candidate was evaluated "
         "(and, for single-solution searches, accepted as current) after it")
 
@@ -89,14 +93,67 @@ def cobj(spec):
             return H(spec["salt"], tuple(math.floor(xi * spec["g"]) for xi in x)) % spec["R"]
         if kind == "quad":
             return sum(a * (xi - ci) * (xi - ci) for a, xi, ci in zip(spec["a"], x, c))
+        # non-smooth family for powell / bfgs / lbfgs: jumps (hard penalty), kinks (L1, minimax, hinge), stairs
+        if kind == "jump":
+            return sum(a * (xi - ci) * (xi - ci) for a, xi, ci in zip(spec["a"], x, c)) \
+                + (spec["C"] if (x[0] < spec["t"]) == spec.get("below", True) else 0.0)
+        if kind == "l1":
+            return sum(a * abs(xi - ci) for a, xi, ci in zip(spec["a"], x, c))
+        if kind == "minimax":
+            return max(a * abs(xi - ci) for a, xi, ci in zip(spec["a"], x, c))
+        if kind == "hinge":
+            return sum(max(0.0, 1.0 - a * (xi - ci)) for a, xi, ci in zip(spec["a"], x, c)) \
+                + 0.5 * spec["lam"] * sum(xi * xi for xi in x)
+        if kind == "stair":
+            return sum(math.floor(k * abs(xi - ci)) for xi, ci in zip(x, c)) \
+                + 0.25 * sum(abs(xi - ci) for xi, ci in zip(x, c))
         return 3  # const
 
+    if spec.get("neg"):       # concave version for maximize
+        pos = base
+        base = lambda x: -pos(x)  # noqa: E731
     return base if sc == 1 else (lambda x: base(x) * sc)
 
 
-def quad_grad(spec, negate):
-    s = -1.0 if negate else 1.0
-    return lambda x: [s * 2 * a * (xi - ci) for a, xi, ci in zip(spec["a"], x, spec["c"])]
+def _sgn(v):
+    return (v > 0) - (v < 0)
+
+
+def make_grad(spec, f):
+    """Gradient callback for bfgs/lbfgs: the almost-everywhere analytic gradient (a subgradient at kinks, the
+    jump ignored) or central differences of the objective itself."""
+    if spec.get("grad") == "numeric":
+        h = spec.get("h", 1e-6)
+
+        def num(x):
+            g = []
+            for i in range(len(x)):
+                xp, xm = list(x), list(x)
+                xp[i] += h
+                xm[i] -= h
+                g.append((f(xp) - f(xm)) / (2 * h))
+            return g
+        return num
+    kind, c, a = spec["kind"], spec["c"], spec.get("a")
+    s = (-1.0 if spec.get("neg") else 1.0) * spec.get("scale", 1)
+
+    def ana(x):
+        if kind in ("quad", "jump"):
+            g = [2 * ai * (xi - ci) for ai, xi, ci in zip(a, x, c)]
+        elif kind == "l1":
+            g = [ai * _sgn(xi - ci) for ai, xi, ci in zip(a, x, c)]
+        elif kind == "minimax":
+            vals = [ai * abs(xi - ci) for ai, xi, ci in zip(a, x, c)]
+            j = vals.index(max(vals))
+            g = [a[j] * _sgn(x[j] - c[j]) if i == j else 0.0 for i in range(len(x))]
+        elif kind == "hinge":
+            g = [(-ai if 1.0 - ai * (xi - ci) > 0 else 0.0) + spec["lam"] * xi for ai, xi, ci in zip(a, x, c)]
+        elif kind == "stair":
+            g = [0.25 * _sgn(xi - ci) for xi, ci in zip(x, c)]
+        else:
+            g = [0.0 for _ in x]
+        return [s * gi for gi in g]
+    return ana
 
 
 class Rec:
@@ -123,12 +180,19 @@ def _stopper(stop):
 # one run of one solver (in the worker); returns a plain dict
 # ---------------------------------------------------------------------------
 
+def enc(v):
+    """Exact encoding of a number: [num, den], or its repr when it is not finite (nan/inf stay comparable)."""
+    if isinstance(v, float) and (v != v or v in (float("inf"), float("-inf"))):
+        return repr(v)
+    return rat(v)
+
+
 def _result(r, rec, f_plain, extra, cont):
     sol = r.solution
-    canon_sol = [rat(x) for x in sol] if cont else list(sol)
+    canon_sol = [enc(x) for x in sol] if cont else list(sol)
     matches = [k for k, a in enumerate(rec.args) if list(a) == list(sol)]
-    d = {"sol": canon_sol, "obj": rat(r.objective), "fsol": rat(f_plain(sol)), "evals": r.evaluations,
-         "iters": r.iterations, "status": r.status.name, "fs": [rat(v) for v in rec.vals], "matches": matches}
+    d = {"sol": canon_sol, "obj": enc(r.objective), "fsol": enc(f_plain(sol)), "evals": r.evaluations,
+         "iters": r.iterations, "status": r.status.name, "fs": [enc(v) for v in rec.vals], "matches": matches}
     d.update(extra)
     return d
 
@@ -338,7 +402,7 @@ def run_continuous(case, minimize, negate):
         r = powell(rec, list(case["start"]), **kw)
     else:
         from solvor.bfgs import bfgs, lbfgs
-        g = quad_grad(case["obj"], negate)
+        g = make_grad(case["obj"], f)
         r = (bfgs if solver == "bfgs" else lbfgs)(g, list(case["start"]), objective_fn=rec, **kw)
     extra = {"starts": starts, "coins": [], "cur_at_call": [], "cands": [], "accept_kind": None}
     return _result(r, rec, f, extra, cont=True)
@@ -379,6 +443,11 @@ def frac_of(v):
     return Fraction(v[0], v[1])
 
 
+def val_of(v):
+    """Decoded `enc` value: a Fraction, or the repr string of a non-finite float."""
+    return v if isinstance(v, str) else Fraction(v[0], v[1])
+
+
 # ---------------------------------------------------------------------------
 # generator
 # ---------------------------------------------------------------------------
@@ -411,6 +480,20 @@ def gen_cobj(rng, n, lo=-4, hi=4):
         spec["cap"] = rng.choice([3, 8, 50])
     elif kind == "hashgrid":
         spec.update(salt=rng.randrange(10 ** 6), g=rng.choice([1, 2, 4]), R=rng.choice([3, 9, 50]))
+    return spec
+
+
+def gen_nsm(rng, n, neg=False):
+    """Objectives with jumps and kinks: hard-penalty quadratic, L1, minimax, hinge, stairs plus a slope."""
+    kind = rng.choice(["jump", "jump", "jump", "l1", "minimax", "hinge", "stair"])
+    spec = {"kind": kind, "c": [dyadic(rng, -2, 2) for _ in range(n)], "neg": neg, "scale": 1,
+            "a": [rng.choice([0.5, 1.0, 1.0, 3.0]) for _ in range(n)], "k": rng.choice([1, 2, 4])}
+    if kind == "jump":
+        spec["t"] = spec["c"][0] + rng.choice([-2, -1, -0.5, 0.25, 0.5, 1, 2])   # discontinuity left/right of the optimum
+        spec["C"] = rng.choice([1.0, 10.0, 100.0, 1000.0])
+        spec["below"] = rng.random() < 0.5      # penalised side
+    elif kind == "hinge":
+        spec["lam"] = rng.choice([0.0, 0.1, 1.0])
     return spec
 
 
@@ -524,21 +607,44 @@ def gen_case(rng, solver, big=False):
         case["start"] = [dyadic(rng, -4, 4) for _ in range(n)]
         if rng.random() < 0.5:
             case["bounds"] = gen_bounds(rng, n)
-        if rng.random() < 0.4:
+        r = rng.random()
+        if r < 0.25:
             case["obj"] = {"kind": "quad", "c": [dyadic(rng, -2, 2) for _ in range(n)],
                            "a": [rng.choice([0.5, 1.0, 3.0]) for _ in range(n)]}
-        o["max_iter"] = rng.choice([0, 1, 2, 5, 20])
+        elif r < 0.7:
+            case["obj"] = gen_nsm(rng, n, neg=not case["minimize"])
+        o["max_iter"] = rng.choice([0, 1, 2, 3, 5, 8, 13, 20, 40])
+        if rng.random() < 0.3:
+            o["tol"] = rng.choice([0.0, 1e-12, 1e-3])
         if rng.random() < 0.2:
             case["stop"] = rng.randint(1, max(1, o["max_iter"]))
-    else:  # bfgs / lbfgs: convex (minimize) or concave (maximize) quadratic
+    else:  # bfgs / lbfgs: smooth or kinked/jumping objective, convex (minimize) or its negation (maximize)
         neg = not case["minimize"]
-        case["obj"] = {"kind": "quad", "c": [dyadic(rng, -2, 2) for _ in range(n)],
-                       "a": [(-1 if neg else 1) * rng.choice([0.5, 1.0, 3.0]) for _ in range(n)]}
+        if rng.random() < 0.2:
+            case["obj"] = {"kind": "quad", "c": [dyadic(rng, -2, 2) for _ in range(n)], "neg": neg,
+                           "a": [rng.choice([0.5, 1.0, 3.0]) for _ in range(n)]}
+        else:
+            case["obj"] = gen_nsm(rng, n, neg=neg)
+        case["obj"]["grad"] = rng.choice(["analytic", "analytic", "numeric"])
+        if case["obj"]["grad"] == "numeric":
+            case["obj"]["h"] = rng.choice([1e-6, 1e-3])
         case["start"] = [dyadic(rng, -4, 4) for _ in range(n)]
-        o["max_iter"] = rng.choice([0, 1, 2, 5, 30])
+        ob = case["obj"]
+        if ob["kind"] == "jump" and rng.random() < 0.7:
+            # hard-penalty shape: the unconstrained optimum lies in the penalised half-space, the start does not,
+            # so the iterates pile up against the discontinuity and line searches run out of backtracks
+            d = rng.choice([0.25, 0.5, 1, 2])
+            side = rng.choice([1, -1])
+            ob["t"] = ob["c"][0] + side * d
+            ob["below"] = side > 0                     # penalise x0 < t (side>0) or x0 >= t (side<0): c[0] is penalised
+            case["start"][0] = ob["t"] + side * rng.choice([0.25, 0.5, 1, 2, 3])
+        # sweep the iteration limit so that runs end on every kind of iteration (also an exhausted line search)
+        o["max_iter"] = rng.randint(1, 40) if rng.random() < 0.8 else rng.choice([0, 60, 150, 1000])
+        if rng.random() < 0.3:
+            o["tol"] = rng.choice([0.0, 1e-12, 1e-3])
         if solver == "lbfgs":
             o["m"] = rng.choice([1, 3, 10])
-        if rng.random() < 0.2:
+        if rng.random() < 0.15:
             case["stop"] = rng.randint(1, max(1, o["max_iter"]))
     case["opts"] = o
     return case
@@ -672,6 +778,10 @@ class _Ctx:
         return self.ctx.fail(fn, klass, what, rep)
 
 
+def _show(v):
+    return v if isinstance(v, str) else repr(float(v)) if v.denominator != 1 else str(v.numerator)
+
+
 def judge(ctx, case, out, reply, alt=None):
     ctx = _Ctx(ctx)
     s = case["solver"]
@@ -696,7 +806,7 @@ def judge(ctx, case, out, reply, alt=None):
     r = out[1]
     A = r["A"]
     ctx.count("status:" + A["status"])
-    obj, fsol = frac_of(A["obj"]), frac_of(A["fsol"])
+    obj, fsol = val_of(A["obj"]), val_of(A["fsol"])
     mini = case["minimize"]
     failed = False
     # ---- R_prop: clauses of the property on the recorded trace of the real solver ----------------
@@ -733,9 +843,15 @@ def judge(ctx, case, out, reply, alt=None):
             failed = True
             ctx.fail(fn, "mirror_differs", f"minimize(-f) with the same seed is not the mirror image: {mir}", rep)
     else:
+        ctx.count(f"{s}:grad:{case['obj'].get('grad', 'none')}")
+        ctx.count(f"{s}:max_iter:{'0' if not case['opts'].get('max_iter', 1000) else '1-40' if case['opts'].get('max_iter', 1000) <= 40 else '>40'}")
         if obj != fsol:
             failed = True
-            ctx.fail(fn, "objective_mismatch", f"Result.objective={obj} but objective_fn(Result.solution)={fsol}", rep)
+            stale = [k for k, v in enumerate(A["fs"]) if v == A["obj"] and k not in A["matches"]]
+            ctx.fail(fn, "objective_mismatch",
+                     f"Result.objective={_show(obj)} but objective_fn(Result.solution)={_show(fsol)}"
+                     + (f"; the reported value is what the objective returned for another point (call #{stale[-1]})"
+                        if stale else ""), rep)
     if not r["same_again"]:
         failed = True
         ctx.fail(fn, "nondeterministic", f"second identical call returned {r['again']}", rep)
@@ -794,7 +910,7 @@ def run_cases(ctx, cases):
 
 
 PER_SOLVER = {"anneal": 1000, "tabu": 800, "lns": 1200, "alns": 1000, "evolve": 800, "de": 600, "pso": 600, "nm": 1200,
-              "bayes": 300, "powell": 150, "bfgs": 100, "lbfgs": 100}
+              "bayes": 300, "powell": 300, "bfgs": 600, "lbfgs": 600}
 
 
 def _cov(ctx):
